@@ -180,6 +180,11 @@ def sec1_candidates(rng, pt=None, n_random=30):
     pr = pow(cnr, (P + 1) // 4, P)
     for yy in (pr, P - pr):
         cands.append(("offcurve_pseudo_root", b"\x04" + x.to_bytes(32, "big") + yy.to_bytes(32, "big")))
+    # valid keys whose x lies in [n, p): the field prime, not the group order, bounds a coordinate
+    for xs in x_between_n_and_p():
+        spt = secp.SECP.lift_x(xs)
+        cands.append(("valid_x_between_n_and_p", bytes([2 + (spt[1] & 1)]) + xs.to_bytes(32, "big")))
+        cands.append(("valid_x_between_n_and_p", b"\x04" + xs.to_bytes(32, "big") + spt[1].to_bytes(32, "big")))
     cands.append(("offcurve", b"\x04" + xb + b"\x00" * 32))
     cands.append(("offcurve", b"\x02" + b"\x00" * 32))      # x = 0: 7 is a non-residue mod p
     for _ in range(n_random):
@@ -254,3 +259,23 @@ def keys_short_coord():
             P_ = secp.SECP.add(P_, G)
         _SHORT = out
     return list(_SHORT)
+
+
+_XNP = None
+
+
+def x_between_n_and_p():
+    global _XNP
+    if _XNP is None:
+        out, x = [], secp.N
+        while len(out) < 2:
+            if secp.SECP.lift_x(x) is not None:
+                out.append(x)
+            x += 1
+        x = secp.P - 1
+        while len(out) < 4:
+            if secp.SECP.lift_x(x) is not None:
+                out.append(x)
+            x -= 1
+        _XNP = out
+    return list(_XNP)
